@@ -88,6 +88,13 @@ def skeleton(eng, name, P):
         o['write_first'] = bool(eng.choose('wf', 2))
         return [[('BF', TS, o, [('BF', T2, bf_opts(eng, '1', ['ok', 'raise_after'], catch=True), [])]),
                  q_hole(eng, '0', kinds, [P1, TS])]]
+    if name == 'A5d':
+        # the mirror image of A5c: a build_file nested *above* the output of its enclosing build_file (its target is the
+        # directory that holds the unfinished output)
+        o = bf_opts(eng, '0', modes)
+        o['write_first'] = bool(eng.choose('wf', 2))
+        return [[('BF', T2, o, [('BF', TS, bf_opts(eng, '1', ['ok', 'raise_after'], catch=True), [])]),
+                 q_hole(eng, '0', kinds, [P1, TS])]]
     if name == 'A9':
         # a build_file function that asks about its own output directory and then reads an input; afterwards the root asks
         # about the directory (the interesting histories change the input, so the replay of the record stops half-way)
